@@ -50,6 +50,11 @@ CHECKS = {
           "Tens of thousands of generated -U patterns (templates around \\n plus grammar-generated ones forced to cross line boundaries) on inputs assembled from strings of the pattern's language; the delivered match blocks, context, numbering and offsets are compared with an independent enumeration of the matches over the whole input, with and without -v, context, CRLF/NUL, under slice, reader, file and mmap strategies. Random exploration with shrinking.",
           "Trusts RegexMatcher::find_at on the whole input; where ripgrep's advance rule and the regex crate's iterator rule give different line sets either is accepted; one known finding (inverted mode restarts at the line block end) is tolerated by exact signature.",
           "DESIGN.md section 3 C13"),
+  "C14": (True, "exploration",
+          "proptest-driven generated inputs with NUL bytes at targeted offsets; invariants over the event stream at library level, validity predicates + differential against --text at CLI level",
+          "20 000 library cases (quit/convert detection under slice, fragmented readers with hook capacities, file, mmap; inputs up to ~200 KB with NULs at the first/last byte, inside/after lines, around 64 KiB and 128 KiB +-3): binary_data at most once with a real NUL offset, finish agrees, quit mode delivers no NUL byte and only a prefix of the detection-off results; 3 000 CLI cases (traversal / explicit / stdin x default / --binary x mmap on/off x context): stdout never contains NUL, printed lines are a prefix of the --text lines, warning after a cut, at most one notice and last, silence only if nothing matches, exit status. Random exploration with shrinking.",
+          "Patterns are restricted to a NUL-indifferent set so that 'a line matches' means the same before and after NUL conversion; --null / --null-data / --json are outside the stdout NUL scan.",
+          "DESIGN.md section 3 C14"),
   "C15": (True, "fault_enumeration",
           "fault enumeration at the CLI: generated trees x injected faults (mode-000 files/dirs as uid 65534, dangling symlinks, missing paths, read errors, invalid arguments) x 7 modes x -j1/-j4, and stdout closed after every k bytes; decision-table oracle + differential against a fault-free run",
           "3 000 fault cases (60 000 thorough) with both matching and faulty entries populated in every cell of the (match x fault x mode x threads) table, compared with the exit-status decision table, per-file diagnostics on stderr and a fault-free reference run on the tree minus the faulty entries; ~400 invalid-argument combinations (status 2, empty stdout); closed-pipe runs for every k up to 320 bytes (4 KiB thorough) and buffer-boundary k for outputs up to 400 KiB (status 0, no diagnostic, termination).",
